@@ -106,10 +106,10 @@ def pmsim_differential(ctx, V, exe, n):
 DELAY_TOL = 20000          # us: poll works in ms and the environment charges 50 us per zero time-out round
 
 
-def _two_dev_cfg(rng, delay):
+def _two_dev_cfg(rng, delay, d0_transport="pipe"):
     """d0 (coprocess, healthy, listed FIRST) whose `on` / `off` scripts sit in a `delay` between send and expect; d1 (tcp) listed after it"""
     cfg = pmgen.Config()
-    d0 = pmgen.Dev("d0", ["login", "on", "off", "status"], hardwired=["p1", "p2"], transport="pipe", timeout=rng.choice([4.0, 6.0]))
+    d0 = pmgen.Dev("d0", ["login", "on", "off", "status"], hardwired=["p1", "p2"], transport=d0_transport, timeout=rng.choice([4.0, 6.0]))
     for k in ("on", "off"):
         body = pmgen.script_text(k)
         first, rest = body.split("\n", 1)
@@ -145,7 +145,7 @@ def pmsim_directed(ctx, V, exe, n):
     for i in range(n):
         rng = random.Random(ctx.seed * 104729 + i)
         delay = rng.choice(["0.7", "1.5", "2.5", "3.2"])
-        cfg = _two_dev_cfg(rng, delay)
+        cfg = _two_dev_cfg(rng, delay, d0_transport="tcp" if i % 6 == 4 else "pipe")
         kind = rkind = refusals[i % 3]
         reqs = [rng.choice(["on n0", "off n1", "on n[0-1]", "off n0"]) for _ in range(rng.randint(1, 3))]
         S = [("connect",), ("wait", 0)]
@@ -153,15 +153,26 @@ def pmsim_directed(ctx, V, exe, n):
         for r in reqs: S += [("send", 0, (r + "\r\n").encode()), ("wait", 0)]
         S += [("send", 0, b"status n[0-1]\r\n"), ("wait", 0)]
         sa = pmcheck.Scenario(cfg, list(S), dict(style="c05-delay", sick="d1", kind="healthy"))
-        if i % 4 == 3:
+        if i % 6 == 3:
             # d1 accepts the connection and then says nothing: it sits in its login expect, which is re-run in every pass
             kind = "silent-login"
             sb = pmcheck.Scenario(cfg, [("devmode", "d1", "silent")] + list(S), dict(style="c05-delay", sick="d1", kind=kind))
+        elif i % 6 == 4:
+            # BOTH devices on tcp; d1 answers line noise whose last byte in every read is 0xFF (a telnet IAC with nothing behind it):
+            # the telnet parser position is per connection, not per process
+            kind = "ff-tail-noise"
+            sb = pmcheck.Scenario(cfg, [("devmode", "d1", "fftail")] + list(S), dict(style="c05-delay", sick="d1", kind=kind))
+        elif i % 6 == 5:
+            # d1 floods: whenever the daemon reads from it there is more (the virtual OS says HANG read-loop if the daemon never gets back
+            # to poll); d0's conversation must go on as if d1 were healthy
+            kind = "flood"
+            sb = pmcheck.Scenario(cfg, [("connect",), ("wait", 0), ("flood_dev", "d1", 1)] + list(S[2:]) + [("flood_dev", "d1", 0)], dict(style="c05-delay", sick="d1", kind=kind, no_replay=True, max_rounds=6000))
         else:
             sb = pmcheck.Scenario(cfg, [("raw", ["PLAN " + kind] * 80)] + list(S), dict(style="c05-delay", sick="d1", kind=kind), env={"PMSIM_PLAN": kind})
         M = [("raw", ["PLAN " + rkind] * 80), ("connect",), ("wait", 0), ("send", 0, rng.choice([b"on n[0-2]\r\n", b"off n0,n2\r\n", b"on n2,n1\r\n"])), ("wait", 0),
              ("send", 0, b"status n[0-2]\r\n"), ("wait", 0)]
-        sm = pmcheck.Scenario(cfg, M, dict(style="c05-mixed", sick="d1", kind=rkind), env={"PMSIM_PLAN": rkind})
+        cfgm = cfg if i % 6 != 4 else _two_dev_cfg(random.Random(ctx.seed * 104729 + i), delay)     # (the connect plans hit every tcp device: d0 on a pipe here)
+        sm = pmcheck.Scenario(cfgm, M, dict(style="c05-mixed", sick="d1", kind=rkind), env={"PMSIM_PLAN": rkind})
         jobs.append((i, sa, sb, sm))
     from concurrent.futures import ThreadPoolExecutor
 
@@ -182,10 +193,13 @@ def pmsim_directed(ctx, V, exe, n):
         else:
             ta, tb = _reply_times(ra, 0), _reply_times(rb, 0)
             dmax = max([abs(x - y) for x, y in zip(ta, tb)] + [0])
-            V.count("delay-timestamps-within-tolerance" if dmax <= DELAY_TOL else "delay-timestamps-off")
-            if len(ta) != len(tb) or dmax > DELAY_TOL:
+            V.count("delay-timestamps-within-tolerance" if dmax <= (DELAY_TOL if sb.tags.get("kind") != "flood" else 150000) else "delay-timestamps-off")
+            # (under a flood every pass of the loop finds work and costs 5 ms of virtual time: a reply some twenty passes after its request may
+            #  be that much later; a device that makes the others WAIT costs seconds)
+            tol = DELAY_TOL if sb.tags.get("kind") != "flood" else 150000
+            if len(ta) != len(tb) or dmax > tol:
                 V.violation("interference", "reply-time", dict(w, healthy_times=ta, with_sick_times=tb),
-                            "replies for d0's nodes arrive at different virtual times when d1 refuses every connect (max difference %d us > %d): d0's `delay` wake-up depends on d1" % (dmax, DELAY_TOL))
+                            "replies for d0's nodes arrive at different virtual times when d1 misbehaves (max difference %d us > %d): d0's `delay` wake-up depends on d1" % (dmax, tol))
         # (b) mixed
         V.case(("pmsim-mixed", sm.cfg.text(), repr(sm.script)), nontrivial=True); V.count("pmsim-mixed")
         wm = dict(sm.describe(), events=rm.sim.events, client_out=rm.client_out.get(0, b"").decode("latin-1")[-800:])
